@@ -86,7 +86,7 @@ theorem desync_up_delivered :
       w'.tunS = w.tunS ++ [tunImage frame] ∧ w'.tunC = w.tunC ∧
       (Server.getUser w'.srv P.u).tunIp = (Server.getUser w.srv P.u).tunIp ∧
       (Server.getUser w'.srv P.u).fragsize = (Server.getUser w.srv P.u).fragsize :=
-  @C02L.up_packet_imm_desync_ok
+  fun {_} hP {_} {_} hq hd frame h24 hl hb hdst hg16 => C02L.up_packet_imm_desync_ok hP hq hd frame h24 hl hb hdst hg16
 
 /-- **(1a) upstream, immediate mode, `d` in the window** (`DropsUp`: `4 ≤ d ≤ 6`, or `d = 7` and the server's last fragment number is not 0): the packet is NOT delivered; the server answers every copy with its own numbers, the client resends three times at 1 s and gives up (14 scheduler steps, 4 s); the state is desynchronised by `d + 1`. -/
 theorem desync_up_dropped :
@@ -99,7 +99,7 @@ theorem desync_up_dropped :
       (Server.getUser w'.srv P.u).tunIp = (Server.getUser w.srv P.u).tunIp ∧
       (Server.getUser w'.srv P.u).fragsize = (Server.getUser w.srv P.u).fragsize ∧
       w'.srv.now = w.srv.now + 4 ∧ w'.cs.c.selecttimeout = w.cs.c.selecttimeout :=
-  @C02L.up_packet_imm_desync_drop
+  fun {_} hP {_} {_} hq hd frame hne hl hb => C02L.up_packet_imm_desync_drop hP hq hd frame hne hl hb
 
 /-- **recovery_after_giveups** (upstream, immediate mode; THEOREM).  BOUNDED RECOVERY: from a state desynchronised by `d`, of the packets offered next the first `lostUp d` (0 for `d ≤ 3`, else `8 − d` ≤ 4) are lost, all later ones are delivered exactly once and in order, and from the first delivered packet on the state is the synchronised `Quiescent` of the clean-path theorems — delivery resumes and stays.  (Hypothesis `d ≤ 3 ∨ 1 ≤ inpacket.fragment`: see `desync_false_ack` below for what happens otherwise.) -/
 theorem recovery_after_giveups :
@@ -110,7 +110,7 @@ theorem recovery_after_giveups :
       (offerAllC P.u fuel w frames).tunS = w.tunS ++ (frames.drop (lostUp d)).map tunImage ∧
       (offerAllC P.u fuel w frames).tunC = w.tunC ∧
       (lostUp d < frames.length → QuietImm P (offerAllC P.u fuel w frames)) :=
-  @C02L.recovery_after_giveups_up_imm
+  fun hP fuel hfuel frames d w hq hd hfr hok => C02L.recovery_after_giveups_up_imm hP fuel hfuel frames d w hq hd hfr hok
 
 /-- **(1a) downstream, immediate mode, `4 ≤ d ≤ 6`**: NOT delivered.  The client takes every copy of fragment 0 for a recent duplicate and keeps pinging with its own numbers; a one-fragment packet is forgotten by the server as it is sent (3 steps), a longer one is resent on six polls and dropped on the seventh (21 steps); desynchronised by `d + 1`. -/
 theorem desync_down_dropped_immediate :
